@@ -1,0 +1,23 @@
+//go:build verif && go1.18
+// +build verif,go1.18
+
+package cache
+
+import "sort"
+
+// VerifLockedKeys returns the keys that currently hold a per-key build lock.
+//
+// Verification hook, compiled only with build tag "verif".
+func (f *FailoverOf[V]) VerifLockedKeys() []string {
+	f.lock.Lock()
+	defer f.lock.Unlock()
+
+	keys := make([]string, 0, len(f.keyLocks))
+	for k := range f.keyLocks {
+		keys = append(keys, k)
+	}
+
+	sort.Strings(keys)
+
+	return keys
+}
